@@ -754,8 +754,11 @@ class Frame(object):
         if bounding_f_range is None:
             bounding_min, bounding_max = 0, self.fchans
         else:
-            bounding_min = max(self.get_index(bounding_f_range[0]), 0)
-            bounding_max = min(self.get_index(bounding_f_range[1]), self.fchans)
+            bounding_min = min(max(self.get_index(bounding_f_range[0]), 0),
+                               self.fchans)
+            bounding_max = max(min(self.get_index(bounding_f_range[1]),
+                                   self.fchans),
+                               bounding_min)
             
         restricted_fs = self.fs[bounding_min:bounding_max]
         if integrate_f_profile:
